@@ -194,13 +194,22 @@ Qed.
 (** ** queries, mutations, documents answered with errors: exactly one result, then exactly one complete *)
 Theorem ws_query_one_result_one_complete p ls n id d :
   In (VStart n id d) (tr p ls) -> is_sublike d = false ->
-  owned n (tr p ls) = [SData id (result_class d n); SComplete id] /\
+  owned n (tr p ls) = [SData id (result_class (tr p ls) d n); SComplete id] /\
   count (is_start n) (tr p ls) = 1 /\
   count (is_exec n) (tr p ls) = (match d with DInvalid => 0 | _ => 1 end).
 Proof.
   intros H Sl. destruct (reach_inv _ _ _ _ _ _ (run_reach false false false p ls)) as [I _].
-  pose proof (i_started _ _ _ _ I n id d H) as SO. unfold start_ok, view in SO.
+  pose proof (i_started _ _ _ _ I n id d H) as SO. unfold start_ok, start_okb, view in SO.
   destruct d; try discriminate; injection SO as -> -> _ _ _ _ ->; auto.
+Qed.
+
+(** the result is the operation's own unless closing had begun before it was started (the handler's context is
+    cancelled by beginClosing: the operation is executed, its resolvers do not run, the result carries errors
+    only); closing has begun before operation n iff a [VBeginClose] precedes its start in the trace *)
+Theorem ws_begun_iff_closing p ls : existsb is_begin (tr p ls) = true <-> WsModel.closing (fin p ls) <> None.
+Proof.
+  rewrite (reach_begun false false false p _ _ (run_reach false false false p ls)). unfold begunb.
+  destruct (WsModel.closing (fin p ls)); split; congruence.
 Qed.
 
 (** a start / subscribe frame with a decodable payload that arrives on an initialised connection
